@@ -4,9 +4,10 @@ Coq model coq/Model/AutoregNet.v (driver ocaml/bin/autoreg), used by the C01 and
     from harness import autoreg
     autoreg.run_units(ctx)          # ctx.prop decides the search oracle: C01 round trip, C02 autodiff log-det (else both)
 
-The build must include the extraction group "autoreg" (GROUPS = [..., "autoreg"]); coq/Extract/Ex_autoreg.v requires
-Props/X01_autoreg.vo, so the theorems of that file are compiled by the same build and `run_units` registers them
-(ctx.theorems("Props/X01_autoreg.v")) unless theorems=False.
+The build must include the extraction group "autoreg" (GROUPS = [..., "autoreg"]).  The theorems live in
+coq/Props/X01_autoreg.v: list it in the calling check's EXTRA_PROPS (harness/main.py then builds it and registers one obligation
+per theorem); if it was not registered that way `run_units` builds it (./build.sh X01_autoreg autoreg) and registers it itself
+(theorems=None, the default; theorems=False never does).
 
 What is serialised from the real object (nothing is taken from the model side): dim, cond_dim, nn_width, nn_depth, activation,
 the RAW weight matrices (Where.if_true), the biases, the transformer the layer was constructed with (kind, min_scale /
@@ -17,6 +18,8 @@ Compared, real object vs model at IEEE doubles:
   autoreg-conditioner conditioner output, from raw weights + model masks AND from the unwrapped weights (plain MLP), 1e-12
   autoreg-tparams     unwrapped transformer parameters per coordinate (loc, scale / x_pos, y_pos, derivatives), 1e-9
   autoreg-layer-tie   transform, inverse, transform_and_log_det, inverse_and_log_det: values and log-dets, 1e-9 relative
+                      (+ 64 x the smaller one-sided change of the implementation's own output over the two float neighbours of the input, which is
+                      ~1e-15 except in ill-conditioned spline bins)
 on random inputs and boundary-directed ones (per transformed coordinate: spline interval ends, their float neighbours, every
 knot of that coordinate's own spline, far outside; affine: 0, +-1, +-1e4, the preimage of 0).
 Search oracles (implementation alone): round trips both ways (C01); log_det vs slogdet(jax.jacobian(transform)) and the
@@ -31,7 +34,9 @@ import time
 
 import numpy as np
 
-from harness.common import fhex, fparse, hexlist, sha
+import subprocess
+
+from harness.common import VERIF, fhex, fparse, hexlist, sha
 
 GROUP = "autoreg"
 THEOREMS_FILE = "Props/X01_autoreg.v"
@@ -114,9 +119,14 @@ def close(a, b, rel):
     return abs(a - b) <= rel * max(1.0, abs(a), abs(b))
 
 
-def vclose(a, b, rel):
+def vclose(a, b, rel, slack=0.0):
     a, b = np.ravel(np.asarray(a, dtype=float)), np.ravel(np.asarray(b, dtype=float))
-    return a.shape == b.shape and all(close(float(p), float(q), rel) for p, q in zip(a, b))
+    return a.shape == b.shape and all(close(float(p), float(q), rel) or abs(float(p) - float(q)) <= slack for p, q in zip(a, b))
+
+
+def _fin(d):
+    d = np.asarray(d, dtype=float)
+    return float(np.max(np.where(np.isfinite(d), d, 0.0))) if d.size else 0.0
 
 
 # ------------------------------------------------------------------------------------------------ real objects
@@ -246,9 +256,12 @@ def tparams_of(cfg, u, cn):
     L = lib()
     jnp = L["jnp"]
     tr = L["unwrap"](u._flat_params_to_transformer(cn)).bijection
+    n = cfg["dim"] - (0 if cfg["kind"] == "maf" else cfg["ud"])
+    # a shared (un-vmapped) leaf counts for every coordinate
     if cfg["t"]["kind"] in ("aff", "affms"):
-        return jnp.stack((tr.loc, tr.scale), 1)
-    return jnp.concatenate((tr.x_pos, tr.y_pos, tr.derivatives), 1)
+        return jnp.stack((jnp.broadcast_to(tr.loc, (n,)), jnp.broadcast_to(tr.scale, (n,))), 1)
+    K2 = cfg["t"]["knots"] + 2
+    return jnp.concatenate(tuple(jnp.broadcast_to(a, (n, K2)) for a in (tr.x_pos, tr.y_pos, tr.derivatives)), 1)
 
 
 def make_eval(cfg, obj, want_jac):
@@ -270,6 +283,18 @@ def make_eval(cfg, obj, want_jac):
         cn = layer_mlp(cfg, u)(inp)
         out = dict(f=f, f2=f2, fl=fl, i=i, i2=i2, il=il, cn=cn, tp=tparams_of(cfg, u, cn), rt=o.inverse(f, c), rt2=o.transform(i, c),
                    rtl=o.transform_and_log_det(i2, c)[1])
+        # sensitivity of each compared method to one ulp of its input (an ill-conditioned spline bin -- softmax_adjust 0 and a wide
+        # raw spread give bins of width 1e-8 -- amplifies the last-bit differences between libm and XLA in the knots)
+        fp, flp = o.transform_and_log_det(jnp.nextafter(x, jnp.inf), c)
+        fm, flm = o.transform_and_log_det(jnp.nextafter(x, -jnp.inf), c)
+        ip, ilp = o.inverse_and_log_det(jnp.nextafter(y, jnp.inf), c)
+        im, ilm = o.inverse_and_log_det(jnp.nextafter(y, -jnp.inf), c)
+        # the smaller of the two one-sided changes: at a kink (interval end of a spline) one side is still continuous
+        mn = lambda p, m, v: jnp.minimum(jnp.abs(p - v), jnp.abs(v - m))
+        out.update(fd=mn(fp, fm, f2), fld=mn(flp, flm, fl), idd=mn(ip, im, i2), ild=mn(ilp, ilm, il))
+        # conditioning of the returning map, measured on the two float neighbours of the intermediate point
+        out["rtd"] = jnp.abs(o.inverse(jnp.nextafter(f, jnp.inf), c) - o.inverse(jnp.nextafter(f, -jnp.inf), c))
+        out["rt2d"] = jnp.abs(o.transform(jnp.nextafter(i, jnp.inf), c) - o.transform(jnp.nextafter(i, -jnp.inf), c))
         if want_jac:
             out["J"] = jax.jacobian(lambda v: o.transform(v, c))(x)
         return out
@@ -406,8 +431,10 @@ def roundtrip_errors(obj, direction, x, c, tol=1e-6):
             errs.append(f"{nm}({xa.tolist()}) = {mid.tolist()} is not finite")
         return errs
     back = np.asarray(b(jnp.asarray(mid), cj), dtype=float)
+    d = np.abs(np.asarray(b(jnp.asarray(np.nextafter(mid, np.inf)), cj), dtype=float) - np.asarray(b(jnp.asarray(np.nextafter(mid, -np.inf)), cj), dtype=float))
+    d = float(np.max(np.where(np.isfinite(d), d, 0.0)))   # conditioning of the returning map at the intermediate point
     err = float(np.max(np.abs(back - xa))) if back.shape == xa.shape else float("inf")
-    if not err <= tol * (1.0 + float(np.max(np.abs(xa)))):
+    if not err <= tol * (1.0 + float(np.max(np.abs(xa)))) + 16 * d:
         errs.append(f"{'inverse(transform(x))' if direction == 'fwd' else 'transform(inverse(y))'} = {back.tolist()} for input {xa.tolist()}"
                     f"{'' if c is None else ' condition ' + str(np.ravel(c).tolist())} (error {err:.3g})")
     return errs
@@ -504,13 +531,17 @@ def _bump(ctx, sig):
     return False
 
 
-def run_units(ctx, theorems=True, n_maf=None, n_coup=None, batch=None):
+def run_units(ctx, theorems=None, n_maf=None, n_coup=None, batch=None):
     """Entry point for harness/c01.py and harness/c02.py.  Requires ctx.build([... , 'autoreg'])."""
     t_start = time.time()
     L = lib()
     jnp, unwrap = L["jnp"], L["unwrap"]
     oracle = ctx.prop if ctx.prop in ("C01", "C02") else "both"
-    if theorems:
+    registered = any(o["name"] == "theorem X01_maf_net_inv_fwd" for o in ctx.obligations)
+    if theorems or (theorems is None and not registered):
+        # not wired through EXTRA_PROPS = [..., "Props/X01_autoreg.v"]: build and register the theorems here
+        r = subprocess.run([os.path.join(VERIF, "build.sh"), "X01_autoreg", GROUP], capture_output=True, text=True, timeout=3400)
+        ctx.obligation("coq-build Props/X01_autoreg.v", "BUILD-OK" in r.stdout, (r.stdout + r.stderr)[-1500:] if "BUILD-OK" not in r.stdout else "")
         ctx.theorems(THEOREMS_FILE)
     rng = ctx.rng
     n_maf = n_maf if n_maf is not None else (6 if ctx.quick else 40)
@@ -545,7 +576,7 @@ def run_units(ctx, theorems=True, n_maf=None, n_coup=None, batch=None):
             ctx.violation(sig=f"transformer-init:{tc['kind']}", what=f"initial ravelled parameters of {tc}: model {mod} != real {real.tolist()}",
                           case=dict(transformer=tc), found_input=False, unit=uw.name, expected=str(mod), observed=str(real.tolist()),
                           broken="model affine_min_scale_init / rqs_init (coq/Model/AutoregNet.v)")
-    for ci, cfg in enumerate(cfgs):
+    def _layer(ci, cfg):
         tcfg = cfg["t"]
         t = perturb(make_transformer(tcfg), rng, 0.7)
         init = transformer_raw(tcfg, t)
@@ -635,9 +666,11 @@ def run_units(ctx, theorems=True, n_maf=None, n_coup=None, batch=None):
                     _report(ctx, up, cfg, init, raws, biases, obj, "fwd", x, c, f"unwrapped transformer parameters: model {m_tp[:200]} != implementation {np.ravel(tp).tolist()}",
                             m_tp, np.ravel(tp).tolist(), oracle)
                 checks = (("fwd", m_f, r["f"][k], None), ("fwdld", m_fl, r["f2"][k], float(r["fl"][k])))
+                sv, sl = 64 * _fin(r["fd"][k]), 64 * _fin(r["fld"][k])
             else:
                 m_i, m_il = outs[at: at + 2]
                 checks = (("inv", m_i, r["i"][k], None), ("invld", m_il, r["i2"][k], float(r["il"][k])))
+                sv, sl = 64 * _fin(r["idd"][k]), 64 * _fin(r["ild"][k])
             for method, line, iy, ild in checks:
                 nontriv = bnd or (ild is not None and np.isfinite(ild) and abs(ild) > 1e-3) or (ild is None)
                 ut.count(key + (method,), nontrivial=bool(nontriv), tag=f"{tag0}:{method}:{'boundary' if bnd else 'random'}")
@@ -645,10 +678,11 @@ def run_units(ctx, theorems=True, n_maf=None, n_coup=None, batch=None):
                     ctx.sample(dict(layer=cfg, method=method, x=np.ravel(x).tolist(), condition=None if c is None else np.ravel(c).tolist(),
                                     model=line[:160], implementation=[np.ravel(iy).tolist(), ild]))
                 my, ml = parse_yl(line)
-                ok = my != "ERR" and vclose(my, iy, 1e-9) and close(ml, ild, 1e-9)
+                lclose = lambda a, b: close(a, b, 1e-9) or (a is not None and b is not None and abs(a - b) <= sl)
+                ok = my != "ERR" and vclose(my, iy, 1e-9, sv) and lclose(ml, ild)
                 if not ok and not _already(ctx, ut, cfg, method):
                     ey, el = eager(obj, method, x, c)   # confirm on the un-jitted, un-batched real method
-                    if my == "ERR" or not (vclose(my, ey, 1e-9) and close(ml, el, 1e-9)):
+                    if my == "ERR" or not (vclose(my, ey, 1e-9, sv) and lclose(ml, el)):
                         _report(ctx, ut, cfg, init, raws, biases, obj, method, x, c, f"model {line[:160]} != implementation {(ey.tolist(), el)}", line, (ey.tolist(), el), oracle)
             # ---- the property's own oracle on the implementation (from the same jitted evaluation)
             # float conditioning guard of the oracles: an affine scale below 1e-3 / above 1e3 (softplus of a large raw value) makes
@@ -664,7 +698,8 @@ def run_units(ctx, theorems=True, n_maf=None, n_coup=None, batch=None):
                     uo.count(key + ("rt",), nontrivial=True, tag=tag0 + ":roundtrip-fwd")
                     err = float(np.max(np.abs(r["rt"][k] - xs)))
                     same_pt = np.allclose(f, r["f2"][k], rtol=1e-12, atol=1e-300)
-                    if not (err <= 1e-6 * (1 + np.max(np.abs(xs))) and same_pt) and not _bump(ctx, f"{cls}[{tcfg['kind']}]:roundtrip-fwd"):
+                    dd = float(np.max(np.where(np.isfinite(r["rtd"][k]), r["rtd"][k], 0.0)))
+                    if not (err <= 1e-6 * (1 + np.max(np.abs(xs))) + 16 * dd and same_pt) and not _bump(ctx, f"{cls}[{tcfg['kind']}]:roundtrip-fwd"):
                         errs = roundtrip_errors(obj, "fwd", xs, c)
                         if errs:
                             ctx.violation(sig=f"{cls}[{tcfg['kind']}]:roundtrip-fwd", what=f"{cls} ({tcfg['kind']} transformer): " + "; ".join(errs),
@@ -686,7 +721,8 @@ def run_units(ctx, theorems=True, n_maf=None, n_coup=None, batch=None):
                     uo.count(key + ("rt",), nontrivial=True, tag=tag0 + ":roundtrip-inv")
                     err = float(np.max(np.abs(r["rt2"][k] - ys)))
                     same_pt = np.allclose(i, r["i2"][k], rtol=1e-12, atol=1e-300)
-                    if not (err <= 1e-6 * (1 + np.max(np.abs(ys))) and same_pt) and not _bump(ctx, f"{cls}[{tcfg['kind']}]:roundtrip-inv"):
+                    dd = float(np.max(np.where(np.isfinite(r["rt2d"][k]), r["rt2d"][k], 0.0)))
+                    if not (err <= 1e-6 * (1 + np.max(np.abs(ys))) + 16 * dd and same_pt) and not _bump(ctx, f"{cls}[{tcfg['kind']}]:roundtrip-inv"):
                         errs = roundtrip_errors(obj, "inv", ys, c)
                         if errs:
                             ctx.violation(sig=f"{cls}[{tcfg['kind']}]:roundtrip-inv", what=f"{cls} ({tcfg['kind']} transformer): " + "; ".join(errs),
@@ -700,6 +736,18 @@ def run_units(ctx, theorems=True, n_maf=None, n_coup=None, batch=None):
                                            f"{float(r['rtl'][k])!r} at the returned point, y = {ys.tolist()}",
                                       case=_case(cfg, init, raws, biases, "invld", ys, c), found_input=True, unit=uo.name, expected=-float(r["rtl"][k]), observed=float(r["il"][k]),
                                       broken="inverse-law oracle on the real layer")
+
+    for ci, cfg in enumerate(cfgs):
+        try:
+            _layer(ci, cfg)
+        except Exception as e:  # the real layer could not be built / evaluated / serialised the way the model says
+            import traceback
+
+            cls = 'MaskedAutoregressive' if cfg['kind'] == 'maf' else 'Coupling'
+            ctx.violation(sig=f"{cls}[{cfg['t']['kind']}]:harness-exception:{type(e).__name__}",
+                          what=f"{cls} {cfg}: evaluating / serialising the real layer raised {type(e).__name__}: {str(e)[:200]}",
+                          case=dict(layer=cfg, traceback=traceback.format_exc()[-1500:]), found_input=False, unit=ut.name,
+                          broken='correspondence autoreg-layer-tie (the real object no longer has the structure the model serialises)')
         if ci % 8 == 7:
             L["jax"].clear_caches()
     ctx.assumptions += ["autoreg units: inputs finite; MAF/Coupling dims 1-4, cond_dim None/2, nn_width 3-8, nn_depth 0-2, activations relu/tanh, "
@@ -758,7 +806,7 @@ def main():
         ok = replay_case(ctx, json.load(open(a.replay)))
         print("REPLAY", "property holds on this case" if ok else "property FAILS on this case")
         sys.exit(0 if ok else 1)
-    run_units(ctx, theorems=not a.no_theorems)
+    run_units(ctx, theorems=False if a.no_theorems else None)
     for o in ctx.obligations:
         if not o["discharged"]:
             print("OBLIGATION NOT DISCHARGED:", o["name"], o["detail"][:300])
